@@ -122,7 +122,7 @@ func (p *c14Pool) obytes(b *[]byte) string {
 // ---------------------------------------------------------------- mirror of KMIP objects
 
 type c14TRsaPriv struct {
-	Mod                        c14Int
+	Mod                      c14Int
 	D, E, P, Q, Dp, Dq, Qinv *c14Int
 }
 type c14CurveD struct {
@@ -1022,7 +1022,20 @@ type c14Env struct {
 }
 
 func newC14Env() *c14Env {
-	return &c14Env{srv: &c14Server{store: map[string]kmip.Object{}}, clients: map[[2]int]*kmipclient.Client{}}
+	e := &c14Env{srv: &c14Server{store: map[string]kmip.Object{}}, clients: map[[2]int]*kmipclient.Client{}}
+	// an unrelated object fetched on the same connection AFTER the object under test and BEFORE its
+	// accessors run: extracted key material must not depend on later exchanges of the connection
+	scribble := bytes.Repeat([]byte{0xA5}, 6000)
+	e.srv.store["scribble"] = &kmip.SymmetricKey{KeyBlock: kmip.KeyBlock{KeyFormatType: kmip.KeyFormatTypeRaw,
+		KeyValue: &kmip.KeyValue{Plain: &kmip.PlainKeyValue{KeyMaterial: kmip.KeyMaterial{Bytes: &scribble}}}}}
+	return e
+}
+
+// laterExchange performs one more request/response on the client's connection.
+func c14LaterExchange(cl *kmipclient.Client) {
+	ctx, cancel := context.WithTimeout(context.Background(), 20*time.Second)
+	defer cancel()
+	_, _ = c14Safe(func() { _, _ = cl.Get("scribble").ExecContext(ctx) })
 }
 
 func (e *c14Env) client(ver [2]int) (*kmipclient.Client, error) {
@@ -1075,6 +1088,9 @@ func (e *c14Env) transport(wire string, ver [2]int, obj kmip.Object) (pl *payloa
 			ctx, cancel := context.WithTimeout(context.Background(), 20*time.Second)
 			defer cancel()
 			pl, err = cl.Get("obj").ExecContext(ctx)
+			if err == nil {
+				c14LaterExchange(cl)
+			}
 		case "xml", "json", "ttlv-direct":
 			msg := &kmip.ResponseMessage{Header: kmip.ResponseHeader{ProtocolVersion: kmip.ProtocolVersion{ProtocolVersionMajor: int32(ver[0]), ProtocolVersionMinor: int32(ver[1])},
 				TimeStamp: time.Unix(1, 0), BatchCount: 1},
@@ -1222,8 +1238,8 @@ func c14GenEC(r *h.Rand, curve string, style int) *c14Key {
 type c14BuildCase struct {
 	T     string `json:"t"` // "build"
 	Key   *c14Key
-	Entry int    // 0 typed builder, 1 PrivateKey/PublicKey, 2 Pkcs1*Key(der), 3 Pkcs8PrivateKey(der), 4 Sec1PrivateKey(der), 5 X509PublicKey(der)
-	KF    int    // kmipclient.KeyFormat bits
+	Entry int // 0 typed builder, 1 PrivateKey/PublicKey, 2 Pkcs1*Key(der), 3 Pkcs8PrivateKey(der), 4 Sec1PrivateKey(der), 5 X509PublicKey(der)
+	KF    int // kmipclient.KeyFormat bits
 	Ver   [2]int
 	Usage int32
 	Wire  string `json:",omitempty"` // "", ttlv, xml, json
@@ -1438,7 +1454,9 @@ func (r *c14Run) wireRow(orig *c14Object, wire string, ver [2]int, pl *payloads.
 }
 
 func c14KeyEqual(a, b any) bool {
-	type eq interface{ Equal(x crypto.PrivateKey) bool }
+	type eq interface {
+		Equal(x crypto.PrivateKey) bool
+	}
 	type eqp interface{ Equal(x crypto.PublicKey) bool }
 	if a == nil || b == nil {
 		return false
@@ -1584,6 +1602,9 @@ func (r *c14Run) runBuild(bc *c14BuildCase) {
 		pan, msg := c14Safe(func() {
 			if _, werr = exec.ExecContext(ctx); werr == nil {
 				pl, werr = cl.Get("reg").ExecContext(ctx)
+			}
+			if werr == nil {
+				c14LaterExchange(cl)
 			}
 		})
 		cancel()
@@ -1786,10 +1807,10 @@ func (r *c14Run) runSlot(sc *c14SlotCase, fx *c14Fixtures) {
 // ---------------------------------------------------------------- fixtures for the exhaustive parts
 
 type c14Fixtures struct {
-	rsa, ec                                                                    *c14Key
+	rsa, ec                                                                        *c14Key
 	pkcs1priv, pkcs1pub, pkcs8rsa, pkcs8ec, pkcs8ed, pkixrsa, pkixec, pkixed, sec1 []byte
-	q, qc                                                                      []byte
-	cert                                                                       []byte
+	q, qc                                                                          []byte
+	cert                                                                           []byte
 }
 
 type c14Zero struct{}
@@ -1927,7 +1948,9 @@ func (fx *c14Fixtures) objects(thorough bool) []*c14ObjCase {
 		}
 		out = append(out, oc)
 	}
-	plain := func(m c14Material, attrs ...int32) *c14KeyValue { return &c14KeyValue{Plain: &c14Plain{Material: m, Attrs: attrs}} }
+	plain := func(m c14Material, attrs ...int32) *c14KeyValue {
+		return &c14KeyValue{Plain: &c14Plain{Material: m, Attrs: attrs}}
+	}
 	for _, kind := range []string{"SecretData", "SymmetricKey", "PublicKey", "PrivateKey"} {
 		for f := uint32(0); f <= 24; f++ {
 			kb := func(v *c14KeyValue) *c14KeyBlock { return &c14KeyBlock{Format: f, Value: v, Alg: 4, Len: 64} }
